@@ -3,6 +3,8 @@ package main
 // Discharging obligations: race of z3 4.8.12, z3 5.1.0 (z3-new) and cvc5.
 
 import (
+	"strconv"
+	"runtime"
 	"bytes"
 	"context"
 	"fmt"
@@ -285,6 +287,13 @@ func dischargeAll(units []*UnitResult, dir string, timeout time.Duration, seed i
 					first := j.o.Seconds
 					discharge(j.vc, j.o, dir, 3*timeout, seed+1)
 					j.o.Seconds += first
+					if (j.o.Result == "unknown" || j.o.Result == "timeout") && machineOverloaded() {
+						// the machine is heavily oversubscribed (other checks running beside this one): a time
+						// limit says little then; one more attempt with a generous limit before reporting
+						prev := j.o.Seconds
+						discharge(j.vc, j.o, dir, 10*timeout, seed+2)
+						j.o.Seconds += prev
+					}
 				}
 			}
 		}()
@@ -294,4 +303,21 @@ func dischargeAll(units []*UnitResult, dir string, timeout time.Duration, seed i
 	}
 	close(ch)
 	wg.Wait()
+}
+
+// machineOverloaded: the 1-minute load average exceeds 1.5 x the number of CPUs.
+func machineOverloaded() bool {
+	data, err := os.ReadFile("/proc/loadavg")
+	if err != nil {
+		return false
+	}
+	f := strings.Fields(string(data))
+	if len(f) == 0 {
+		return false
+	}
+	l, err := strconv.ParseFloat(f[0], 64)
+	if err != nil {
+		return false
+	}
+	return l > 1.5*float64(runtime.NumCPU())
 }
